@@ -50,6 +50,12 @@ def programs(tier, seed):
     for bl, (l, u) in itertools.product([[True, False], [True, True]], [([0, 0], [2, 2]), ([1, 0], [1, 2]), ([0, 0], [0, 1]), ([-1, 0], [1, 1])]):
         for c in ([-1, -1], [1, -2], [2, 1]):
             out.append(dict(n=2, c=c, l=list(l), u=list(u), rows=[dict(a=[1, 1], b=2, cls='U'), dict(a=[1, 1], b=1, cls='L')], bools=list(bl), dup=1))
+    # booleans with FRACTIONAL bounds (a fixed window filled from a relaxed run, user-given bounds): [1/2, 1] forces 1, [0, 7/10] forces 0,
+    # [3/10, 3/10] admits no value; the forced value is the unattractive one, so bounds rounded the wrong way change optimum / feasibility
+    for (l0, u0, d0), c in itertools.product([(1, 2, 2), (0, 7, 10), (3, 3, 10), (1, 3, 2), (-1, 1, 2), (3, 10, 10)], ([-2, -1], [2, -1], [1, 1])):
+        out.append(dict(n=2, c=c, l=[l0, 0], u=[u0, 2], den=[d0, 1], rows=[dict(a=[1, 1], b=2, cls='U')], bools=[True, False], dup=0, binding=True))
+        out.append(dict(n=3, c=c + [-1], l=[0, l0, 0], u=[1, u0, 1], den=[1, d0, 1], rows=[dict(a=[1, 1, 1], b=3, cls='U'), dict(a=[1, 0, 1], b=1, cls='L')],
+                        bools=[True, True, True], dup=0, binding=True))
     # four variables, equality and nodal rows that are tight only away from the unconstrained optimum
     for c in ([1, 1, -1, -1], [-1, 2, -2, 1]):
         for rows in ([dict(a=[1, 1, 0, 0], b=1, cls='N'), dict(a=[0, 0, 1, 1], b=1, cls='S')],
@@ -79,6 +85,8 @@ def programs(tier, seed):
         g['l'] = [0] + p['l']
         g['u'] = [3] + p['u']
         g['bools'] = [False] + p['bools']
+        if 'den' in p:
+            g['den'] = [1] + p['den']
         g['rows'] = [dict(a=[0] + rr['a'], b=rr['b'], cls=rr['cls']) for rr in p['rows']]
         g['maporder'] = 'gap'
         g['gapvar'] = 0
@@ -94,7 +102,9 @@ def programs(tier, seed):
 
 def brute(p):
     best = None
-    rng = [range(max(l, 0) if b else l, (min(u, 1) if b else u) + 1) for l, u, b in zip(p['l'], p['u'], p['bools'])]
+    den = p.get('den', [1] * p['n'])
+    lu = [(-((-l) // d), u // d) for l, u, d in zip(p['l'], p['u'], den)]
+    rng = [range(max(l, 0) if b else l, (min(u, 1) if b else u) + 1) for (l, u), b in zip(lu, p['bools'])]
     for y in itertools.product(*rng):
         ok = True
         for r in p['rows']:
@@ -130,13 +140,14 @@ def build_op(p):
         ct = ''.join(r['cls'] for r in p['rows'])
     else:
         A, b, ct = None, None, None
-    return eao.optimization.OptimProblem(c=np.array(p['c'], float), l=np.array(p['l'], float), u=np.array(p['u'], float),
+    den = np.array(p.get('den', [1] * n), float)
+    return eao.optimization.OptimProblem(c=np.array(p['c'], float), l=np.array(p['l'], float) / den, u=np.array(p['u'], float) / den,
                                          A=A, b=b, cType=ct, mapping=m)
 
 
 def outcome(p, res, solver):
     tol = TOL[solver]
-    base = dict(p={k: p[k] for k in ('n', 'c', 'l', 'u', 'rows', 'bools')}, K=K, tol=tol,
+    base = dict(p={k: p[k] for k in ('n', 'c', 'l', 'u', 'rows', 'bools', 'den') if k in p}, K=K, tol=tol,
                 vtol=int(tol * (sum(abs(v) for v in p['c']) + 1) + 2))
     if isinstance(res, str):
         base['kind'] = 'inaccurate' if res == 'inaccurate' else 'failure'
@@ -167,7 +178,7 @@ def run(tier, seed):
                 continue
             traces.append(outcome(p, res, solver))
             meta.append(dict(check='solve', solver=str(solver), mip=mip, classes=''.join(sorted({r['cls'] for r in p['rows']})), prog=k, dup=p['dup']))
-        if mip:
+        if mip and 'den' not in p:      # (with fractional bounds the relaxed polytope is not integral: not decided on the lattice)
             # make_soft_problem: the relaxation (flags dropped, bounds kept); the row templates are interval rows, so the relaxed polytope is integral
             for solver in (None, 'SCIPY', 'CLARABEL'):
                 op = build_op(p)
@@ -185,7 +196,7 @@ def run(tier, seed):
                 meta.append(dict(check='solve_soft', solver=str(solver), mip=mip, classes=''.join(sorted({r['cls'] for r in p['rows']})), prog=k, dup=p['dup']))
     # call histories on ONE problem object: every response must satisfy the contract of the program as assembled, whatever was
     # called before (relaxed and exact solves interleaved, solvers changed)
-    hist_progs = [(k, p) for k, p in enumerate(progs) if any(p['bools'])]
+    hist_progs = [(k, p) for k, p in enumerate(progs) if any(p['bools']) and 'den' not in p]
     hist_progs = [kp for kp in hist_progs if kp[1].get('binding')] + [kp for kp in hist_progs if not kp[1].get('binding')][seed % 3::3]
     for k, p in hist_progs[:40 if tier == 'quick' else 400]:
         bools0 = list(p['bools'])
